@@ -348,6 +348,12 @@ func (i *Interpreter) Exec(ctx context.Context, bs match.Bindings, props core.St
 	if err == nil {
 		x, err = export(v)
 	}
+	if err != nil {
+		// Rendering what a script threw can run code as well
+		// (the thrown object's toString), so that is done here,
+		// too, and the error we hand on is plain text.
+		err = plain(err)
+	}
 	cancel()
 
 	if err != nil {
@@ -367,7 +373,8 @@ func (i *Interpreter) Exec(ctx context.Context, bs match.Bindings, props core.St
 		result = vv
 	case nil:
 	default:
-		return nil, fmt.Errorf("%#v (%T) isn't Bindings", x, x)
+		// (Not %#v: the value can contain itself.)
+		return nil, fmt.Errorf("a %T isn't Bindings", x)
 	}
 	exe.Bs = result
 
@@ -385,6 +392,24 @@ func canonicalize(x interface{}) (interface{}, error) {
 		return nil, err
 	}
 	return y, nil
+}
+
+// plain replaces an error of the script's runtime by one that is just
+// its text.  Asking for that text can fail (or be interrupted) itself.
+func plain(err error) (out error) {
+	if _, is := err.(*goja.InterruptedError); is {
+		return err
+	}
+	defer func() {
+		if r := recover(); r != nil {
+			if ie, is := r.(*goja.InterruptedError); is {
+				out = ie
+			} else {
+				out = errors.New("the script threw a value that cannot be rendered as text")
+			}
+		}
+	}()
+	return errors.New(err.Error())
 }
 
 // export calls v.Export and reports a panic as an error.
